@@ -256,6 +256,78 @@ TRUNCATING_ADAPTORS = ('take', 'step_by', 'filter', 'filter_map', 'skip_while', 
                        'split_at', 'split_first', 'split_last')
 
 
+def _loop_over_window_exits_early(b):
+    """block of an edge that leaves a `for x in window.iter()`-style loop other than through the exhausted iterator (a `break` or `return`
+    in the loop body): the scan then covers only a prefix of the window. None if every loop over an iterator runs to exhaustion."""
+    succ = b._succ
+    n = b.n
+    # strongly connected components (iterative Tarjan)
+    index = {}
+    low = {}
+    onst = set()
+    st = []
+    comp = {}
+    counter = [0]
+    for root in range(n):
+        if root in index:
+            continue
+        work = [(root, iter(succ[root]))]
+        index[root] = low[root] = counter[0]
+        counter[0] += 1
+        st.append(root)
+        onst.add(root)
+        while work:
+            v, it = work[-1]
+            adv = False
+            for w in it:
+                if w not in index:
+                    index[w] = low[w] = counter[0]
+                    counter[0] += 1
+                    st.append(w)
+                    onst.add(w)
+                    work.append((w, iter(succ[w])))
+                    adv = True
+                    break
+                elif w in onst:
+                    low[v] = min(low[v], index[w])
+            if adv:
+                continue
+            work.pop()
+            if work:
+                u = work[-1][0]
+                low[u] = min(low[u], low[v])
+            if low[v] == index[v]:
+                members = []
+                while True:
+                    w = st.pop()
+                    onst.discard(w)
+                    members.append(w)
+                    if w == v:
+                        break
+                for w in members:
+                    comp[w] = v
+    returns = {bi for bi in range(n) if b.blocks[bi]['term']['t'] == 'return'}
+    can_return = set()
+    for bi in range(n):
+        if returns & (b.reachable(bi) | {bi}):
+            can_return.add(bi)
+    for bi, t in b.calls():
+        if (t['callee'].get('name') or '') != 'next' or 'Iterator' not in ((t['callee'].get('trait') or '') + (callee_def(t['callee']) or '')):
+            continue
+        loop = {x for x in range(n) if comp.get(x) == comp.get(bi)}
+        if len(loop) < 2:
+            continue
+        test_block = t.get('target')
+        for u in sorted(loop):
+            for v in succ[u]:
+                if v in loop or v not in can_return:
+                    continue        # stays in the loop, or leaves only by panicking
+                if u == test_block or u == bi:
+                    continue        # the exhausted-iterator exit
+                return u
+    return None
+
+
 def s04b_full_window_scans(ctx):
     """C04: the rescans of the selection methods visit the whole window: an iterator chain that skips, truncates or filters elements cannot
     compute the extremum / its age over the last `length` inputs."""
@@ -284,6 +356,10 @@ def s04b_full_window_scans(ctx):
             if nm in TRUNCATING_ADAPTORS and ('Iterator' in d or 'slice' in d):
                 bad.append((bi, nm))
         r.inst(key, scans > 0)
+        if not bad:
+            early = _loop_over_window_exits_early(b)
+            if early is not None:
+                bad.append((early, 'break / return inside the loop'))
         if bad:
             bi, nm = bad[0]
             r.violate(key + '|partial-scan|' + nm, '%s::next passes its window scan through `%s`: elements of the window are left out of the selection' % (short, nm), b.file, b.term_line(bi))
